@@ -4,4 +4,4 @@ From Coq Require Extraction.
 From Coq Require Import ExtrOcamlBasic.
 From TV Require Import Str Post Tree Ast Attr Doc Render Config Cli Conv Format Partial Sym SymProofs WideProofs CostBound SafeBound Sig SigTree SigScope.
 Extraction Blacklist String List Nat Int Char Bool.
-Extraction "model.ml" strip hygiene_b render doc_eqb Cli.run format_with_width to_config cfg_default annotate flags kind_of_N convert_root format_source erroneous chain_width format_range sym_of inst render_sym_events render_wide sdoc_size wfc swfc tree_size range_node render_sym_aligned room sig_check tsig dsig wsig sig_scope sc.
+Extraction "model.ml" strip hygiene_b render doc_eqb Cli.run format_with_width to_config cfg_default annotate flags kind_of_N convert_root format_source erroneous chain_width format_range sym_of inst render_sym_events render_wide sdoc_size wfc swfc tree_size range_node render_sym_aligned room sig_check tsig dsig wsig sig_scope sc leaf_ok knode_ok inner_kind.
